@@ -237,6 +237,25 @@ long __wrap_syscall(long nr, long a1, long a2, long a3, long a4, long a5, long a
   return __real_syscall(nr, a1, a2, a3, a4, a5, a6);
 }
 
+// malloc/free interposition (linked with -Wl,--wrap=malloc,--wrap=free) for harnesses that inspect
+// the allocator's choices
+void* __real_malloc(size_t);
+void __real_free(void*);
+static uint64_t g_last_malloc_a, g_last_malloc_n, g_last_free_a;
+void* __wrap_malloc(size_t n) {
+  void* p = __real_malloc(n);
+  g_last_malloc_a = (uint64_t)p;
+  g_last_malloc_n = n;
+  return p;
+}
+void __wrap_free(void* p) {
+  g_last_free_a = (uint64_t)p;
+  __real_free(p);
+}
+uint64_t vf_last_malloc_addr() { return g_last_malloc_a; }
+uint64_t vf_last_malloc_size() { return g_last_malloc_n; }
+uint64_t vf_last_free_addr() { return g_last_free_a; }
+
 uint8_t vf_nondet_u8() { return (uint8_t)next_input(8); }
 uint16_t vf_nondet_u16() { return (uint16_t)next_input(16); }
 uint32_t vf_nondet_u32() { return (uint32_t)next_input(32); }
